@@ -173,9 +173,8 @@ theorem mdc_roundtrip (h rest : Octets) (hl : h.length = 20) :
 theorem fromBE_time (t : Nat) (ht : t < 2 ^ 32) : fromBE (timeEncode t) = t := by
   simp [fromBE, timeEncode, scalarFourEncode]; omega
 
-theorem lit_roundtrip (t : Nat) (d rest : Octets) (ht : t < 2 ^ 32) (hl : d.length + 6 < 2 ^ 32) (hne : d ≠ []) :
+theorem lit_roundtrip (t : Nat) (d rest : Octets) (ht : t < 2 ^ 32) (hl : d.length + 6 < 2 ^ 32) :
     packetDecode (litEncode t d ++ rest) = some (.lit 0x62 [] t d, rest) := by
-  have hp : 0 < d.length := List.length_pos_of_ne_nil hne
   have e : fromBE [t / 16777216 % 256, t / 65536 % 256, t / 256 % 256, t % 256] = t := by
     have := fromBE_time t ht; simpa [timeEncode, scalarFourEncode] using this
   refine packetDecode_packet 11 (by omega) _ rest ?_ _ ?_
@@ -183,7 +182,7 @@ theorem lit_roundtrip (t : Nat) (d rest : Octets) (ht : t < 2 ^ 32) (hl : d.leng
   · simp only [decodeBody, litDecode, litBody, timeEncode, scalarFourEncode, List.length_nil, Nat.zero_mod,
       List.append_nil, List.cons_append, List.nil_append, List.length_cons, List.getD_cons_succ, List.getD_cons_zero,
       List.headD_cons, Nat.zero_add]
-    rw [if_neg (by omega), if_neg (by omega), if_neg (by omega)]
+    rw [if_neg (by omega), if_neg (by omega)]
     simp [e]
 
 theorem drop4 {α} (n : Nat) (a b c d : α) (l : List α) : List.drop (4 + n) (a :: b :: c :: d :: l) = List.drop n l := by
